@@ -142,8 +142,9 @@ def treelevel(facts, name, container_field, res):
     q = query["name"]
     need = {
         "iterator != end": any(re.match(r"^\w+!=\w+$", c) for c in conds),
-        "first <= query <= last": any(re.search(r"getStartingSpacialIndex\(\)<=%s&&%s<=\w+\.getEndingSpacialIndex\(\)" % (q, q), c) for c in conds),
-        "in-group lookup succeeded": any(re.match(r"^found\w+$", c) or re.match(r"^\w+$", c) for c in conds),
+        "first <= query <= last": any((re.search(r"getStartingSpacialIndex\(\)<=%s(\W|$)" % q, c) or re.search(r"(\W|^)%s>=\w+\.getStartingSpacialIndex\(\)" % q, c))
+                                      and (re.search(r"(\W|^)%s<=\w+\.getEndingSpacialIndex\(\)" % q, c) or re.search(r"getEndingSpacialIndex\(\)>=%s(\W|$)" % q, c)) for c in conds),
+        "in-group lookup succeeded": any(re.match(r"^\w+$", c) for c in conds),
     }
     res.instance(R, "TbfTree::%s" % name, facts.loc(s), "success return under %s" % conds)
     for k, ok in need.items():
@@ -157,7 +158,8 @@ def treelevel(facts, name, container_field, res):
         res.violation(R, f, fn["qname"], "lookup-query", s["l"][1], "the in-group lookup is not made with the queried index")
     else:
         grp = facts.ntext(tbf.call_base(lookups[0]))
-        if ("std::ref(%s)" % grp) not in st or not re.search(r"\*found\w+\)", st):
+        holder = [v["name"] for v in fm.decls.values() if v.get("k") == "VarDecl" and kids(v) and any(y is lookups[0] for y in walk(v))]
+        if ("std::ref(%s)" % grp) not in st or not holder or ("*%s)" % holder[0]) not in st:
             res.violation(R, f, fn["qname"], "returned-pair", s["l"][1], "the returned pair is not (the searched group, the position found in it): %s" % st[:120])
     # groups are searched by their last index
     lbs = [x for x in walk(fm.body) if x.get("k") == "CallExpr" and tbf.callee_name(x) == "lower_bound"]
